@@ -190,10 +190,8 @@ func (ws *GetRight) Get(ctx context.Context, proxy string,
 		}
 	}
 
-	reader := io.Reader(r.Body)
-	if l > length {
-		reader = io.LimitReader(reader, length)
-	}
+	// never trust the server to send just what it announced
+	reader := io.LimitReader(r.Body, length)
 
 	n, err := io.Copy(w, reader)
 	ws.Accumulate(int(n))
